@@ -6,8 +6,10 @@ THEOREMS = ['C20_tft_unshaped_exact', 'C20_tft_unshaped_perm', 'C20_tft_resolve_
             'C20_visit_terminates', 'C20_visit_total', 'C20_on_cycle_exact', 'C20_cycle_events_sound',
             'C20_loop_eq_rec', 'C20_example_tft', 'C20_example_cycle', 'C20_graph_resolve_in_den',
             'C20_graph_resolve_total', 'C20_example_graph_resolve', 'C20_forest_exact_model',
-            'C20_forest_complete_model', 'C20_resolve_model_exact']
-GEN_DEPS = ['ForestSortKey']
+            'C20_forest_complete_model', 'C20_resolve_model_exact',
+            'C20_tft_walk_terminates', 'C20_tft_walk_computes', 'C20_graph_tft_sound', 'C20_graph_tft_exact',
+            'C20_graph_tft_exact_acyclic', 'C20_tft_model_exact', 'C20_example_graph_tft']
+GEN_DEPS = ['ForestSortKey', 'ForestWalk']
 RULE = ('(c) random grammars for the dynamic lexers with one to three %ignore literals of different lengths that are prefixes/'
         'suffixes of the grammar\'s own string terminals, all texts up to length 4, character-level tiling oracle; '
         '(a) random acyclic ambiguous grammars as in C05 (priorities, overlapping terminals, nullable rules), texts up to '
@@ -20,8 +22,9 @@ RULE = ('(c) random grammars for the dynamic lexers with one to three %ignore li
 TRUSTED_BASE = ['export of the SPPF and instrumentation of the visitor classes by subclassing '
                 '(harness/props/forest_common.py: traced_walk wraps visit_*_in/out, visit_token_node, on_cycle; the '
                 'lists returned by visit_*_in are recorded and replayed as the model parameter sel)',
-                'TreeForestTransformer is modelled on acyclic forests only; on cyclic forests its walk is covered by the '
-                'generic visitor model (termination, trace) and its output by a Python validity check of every tree',
+                'ForestToParseTree / TreeForestTransformer are modelled on cyclic graph forests with use_cache=False '
+                '(Forest/GraphTft.v, branch conditions regenerated: Gen/ForestWalk.v); values are compared as ordered '
+                'alternatives - the _iambig/_inter encoding is multiplied out by the exporter (forest_common.coq_gtft_case)',
                 'forest exactness is proved for the executable Earley model (C20_forest_exact_model, basic lexer / unit '
                 'tokens); that the model is lark (and the dynamic lexers) is compared per case: model derivations of '
                 'the exported forest = brute-force derivations']
@@ -34,6 +37,8 @@ ASSUMPTIONS = ['with regexp terminals under the dynamic lexers, completeness of 
 
 IMPORTS_G = ('From LV Require Import Cfg.Grammar Forest.ExplicitBuild Forest.GraphResolve Forest.GraphSum '
              'Forest.GraphResolveCheck.')
+IMPORTS_T = ('From LV Require Import Base.Prelude Cfg.Grammar Forest.ExplicitBuild Forest.GraphResolve '
+             'Forest.GraphResolveCheck Forest.GraphTft Forest.GraphTftCheck.')
 IMPORTS = ('From LV Require Import Base.Prelude Forest.Sppf Forest.Prio Forest.SppfCheck Forest.PrioCheck Forest.Tft '
            'Forest.TftCheck Forest.Visit Forest.VisitCheck.')
 MAX_UNFOLDED = 700
@@ -220,7 +225,7 @@ def walk_cases(ctx, root, p, w, out_cases, out_meta, cyclic, nontrivial, pick=No
                     break
 
 
-def graph_case(ctx, root, p, w, out_cases, out_meta, cyclic, sum_cases=None, sum_meta=None):
+def graph_case(ctx, root, p, w, out_cases, out_meta, cyclic, sum_cases=None, sum_meta=None, tft_cases=None, tft_meta=None):
     """ForestToParseTree(resolve) on the graph forest vs Forest/GraphResolve.v (cyclic forests included)"""
     try:
         if sum_cases is not None:
@@ -240,6 +245,61 @@ def graph_case(ctx, root, p, w, out_cases, out_meta, cyclic, sum_cases=None, sum
     if len(case) < 60000:
         out_cases.append(case)
         out_meta.append(w)
+    if tft_cases is not None:
+        # quick tier: at most 40 acyclic and 100 cyclic forests go through the instrumented walk
+        n_same = sum(1 for m in tft_meta if bool(m.get('cyclic')) == bool(cyclic))
+        if ctx.thorough() or ctx.widen or n_same < (200 if cyclic else 80):
+            tft_walks(ctx, p, w, cyclic, tft_cases, tft_meta)
+
+
+def named_tree(t, rules):
+    """tree built with rule-identity callbacks -> the tree TreeForestTransformer builds (rule names)"""
+    from lark import Tree
+    if not isinstance(t, Tree):
+        return (str(t.type), str(t))
+    if str(t.data) == '_ambig':
+        return ('_ambig', tuple(named_tree(c, rules) for c in t.children))
+    return (rules[int(t.data)]['name'], tuple(named_tree(c, rules) for c in t.children))
+
+
+def plain_tree(t):
+    from lark import Tree
+    if not isinstance(t, Tree):
+        return (str(t.type), str(t))
+    return (str(t.data), tuple(plain_tree(c) for c in t.children))
+
+
+def tft_walks(ctx, p, w, cyclic, out_cases, out_meta):
+    """ForestToParseTree / TreeForestTransformer in both modes on a pristine forest (cyclic or not): every callback,
+    the data every transform_* receives and the result against Forest/GraphTft.v (walk model and gta)"""
+    from lark.parsers.earley_forest import TreeForestTransformer
+    rules, _ = fc.tables(p)
+    for resolve in (False, True):
+        try:
+            root = p.parse(w['text'])
+            case, res, nev = fc.coq_gtft_case(root, p, resolve)
+            fsv = p.parser.parser.forest_sum_visitor      # the same prioritizer as the instrumented walk
+            named = fc.with_timeout(20, TreeForestTransformer(prioritizer=fsv and fsv(), resolve_ambiguity=resolve).transform,
+                                    p.parse(w['text']))
+        except fc.Timeout:
+            ctx.violation('walk-timeout', dict(w, visitor='ForestToParseTree', resolve=resolve), True,
+                          'ForestToParseTree(resolve_ambiguity=%s).transform did not return within 20 s' % resolve)
+            continue
+        ctx.count('graph-tft', key=(w.get('g'), w.get('text'), w.get('lexer'), resolve), nontrivial=cyclic,
+                  graph_cyclic=cyclic, resolve=resolve, returned_tree=res is not None, events=min(nev // 50 * 50, 400))
+        # TreeForestTransformer proper (rule NAMES, its own _call_rule_func/_call_ambig_func) builds the same tree
+        a = None if res is None else named_tree(res, rules)
+        b = None if named is None else plain_tree(named)
+        if a != b:
+            ctx.violation('correspondence:TreeForestTransformer vs ForestToParseTree with rule-identity callbacks',
+                          dict(w, resolve=resolve, no_longer_checks='TreeForestTransformer builds the tree of the modelled walk'),
+                          False, 'TreeForestTransformer(resolve_ambiguity=%s) returned %r, the instrumented ForestToParseTree %r'
+                          % (resolve, b, a))
+        if case is None:
+            ctx.count('graph-tft-too-long-for-model', nontrivial=False)
+        elif len(case) < 50000:
+            out_cases.append(case)
+            out_meta.append(dict(w, resolve=resolve, cyclic=cyclic))
 
 
 def oracle_acyclic(g, text, lexer):
@@ -402,14 +462,139 @@ def select_ignore_texts(rng, g, ign, want=4, maxlen=4):
     return best[:want] + rest[:1]
 
 
+# ---- histories on ONE transformer object -----------------------------------------------------------------------
+# A walk may be left by an exception raised in a callback (the documented way to reject a cyclic forest is to raise from
+# on_cycle; user token / rule callbacks fail).  The object keeps node_stack, data, and for ForestToParseTree the retreat
+# flag, the cycle node and _successful_visits.  Every later transform() on that object must behave like a fresh one:
+# transform() re-pushes its 'result' sentinel and visit_*_in resets data[id(node)]; ForestToParseTree.visit() resets the
+# retreat state (F50, repaired in /repo; the stale-flag witness is part of this stream as a regression case).
+REUSE_FORESTS = [
+    ('expr', 'start: e\ne: e P e | N\nN: "n"\nP: "+"\n', 'n+n+n'),
+    ('opt', 'start: a b c\na: X?\nb: X?\nc: X?\nX: "x"\n', 'xx'),
+    ('self-cycle', 'start: item\nitem: item | A\nA: "a"\n', 'a'),
+    ('nullable-cycle', 'start: a a\na: a | | A\nA: "a"\n', 'a'),
+    ('mutual-cycle', 'start: a\na: b | A\nb: a\nA: "a"\n', 'a'),
+]
+REUSE_KINDS = ['transform_token_node', 'transform_packed_node', 'transform_symbol_node', 'transform_intermediate_node',
+               'on_cycle', 'visit_packed_node_in']
+
+
+class _Abort(Exception):
+    pass
+
+
+def reuse_classes():
+    from lark import Tree
+    from lark.parsers.earley_forest import TreeForestTransformer, ForestTransformer, ForestToParseTree, ForestSumVisitor
+
+    class Count(ForestTransformer):          # number of derivations (simple unfoldings)
+        def transform_token_node(self, tok):
+            return 1
+
+        def transform_packed_node(self, node, data):
+            n = 1
+            for d in data:
+                n *= d
+            return n
+
+        def transform_symbol_node(self, node, data):
+            return sum(data)
+        transform_intermediate_node = transform_symbol_node
+    return [('TreeForestTransformer/ambig', lambda p: TreeForestTransformer(resolve_ambiguity=False)),
+            ('TreeForestTransformer/resolve', lambda p: TreeForestTransformer(resolve_ambiguity=True)),
+            ('ForestToParseTree/resolve', lambda p: ForestToParseTree(Tree, fc.id_callbacks(p), ForestSumVisitor(), True, False)),
+            ('ForestTransformer/count', lambda p: Count())]
+
+
+def _armed(obj, kind, k):
+    """make the k-th call of callback `kind` on this object raise (after running the original, so that the object's own
+    bookkeeping for that call has happened)"""
+    orig = getattr(obj, kind)
+    st = {'n': 0, 'armed': True}
+
+    def f(*a, **kw):
+        r = orig(*a, **kw)
+        if st['armed']:
+            st['n'] += 1
+            if st['n'] == k:
+                raise _Abort()
+        return r
+    setattr(obj, kind, f)
+    return st
+
+
+def _show(r):
+    from lark import Tree
+    return fc.show_tree(r) if isinstance(r, Tree) else repr(r)
+
+
+def reuse_history(cname, fname, kind, k, forests=None):
+    """one history; returns (aborted, [(later forest, got, want)])"""
+    if forests is None:
+        forests = {n: fc.mk(g, 'basic', 'forest', 'normal') for n, g, _ in REUSE_FORESTS}
+    texts = {n: t for n, _, t in REUSE_FORESTS}
+    mk = dict(reuse_classes())[cname]
+    p1 = forests[fname]
+    root1 = p1.parse(texts[fname])
+    obj = mk(p1)
+    st = _armed(obj, kind, k)
+    try:
+        fc.with_timeout(10, obj.transform, root1)
+        return False, []
+    except _Abort:
+        pass
+    st['armed'] = False
+    out = []
+    keep = [root1]
+    for n2 in [fname] + [n for n in texts if n != fname]:
+        p2 = forests[n2]
+        if cname.startswith('ForestToParseTree') and n2 != fname:
+            continue               # its callbacks belong to one grammar
+        root2 = root1 if n2 == fname else p2.parse(texts[n2])
+        keep.append(root2)
+        try:
+            got = _show(fc.with_timeout(10, obj.transform, root2))
+        except fc.Timeout:
+            got = 'TIMEOUT'
+        except Exception as e:   # noqa
+            got = 'EXC %s' % type(e).__name__
+        try:
+            want = _show(fc.with_timeout(10, mk(p2).transform, root2 if n2 != fname else p1.parse(texts[fname])))
+        except Exception as e:   # noqa
+            want = 'EXC %s' % type(e).__name__
+        out.append((n2, got, want))
+    return True, out
+
+
+def reuse_stream(ctx):
+    forests = {n: fc.mk(g, 'basic', 'forest', 'normal') for n, g, _ in REUSE_FORESTS}
+    for cname, _ in reuse_classes():
+        for fname, _, _ in REUSE_FORESTS:
+            for kind in REUSE_KINDS:
+                for k in (1, 2, 3, 5, 8):
+                    aborted, res = reuse_history(cname, fname, kind, k, forests)
+                    if not aborted:
+                        continue
+                    ctx.count('reuse-history', key=(cname, fname, kind, k), nontrivial=True, visitor=cname, aborted_in=kind)
+                    for n2, got, want in res:
+                        if got != want:
+                            ctx.violation('reuse-after-abort', dict(reuse=True, visitor=cname, forest=fname, kind=kind, k=k, later=n2),
+                                          True, '%s: after a walk of forest %r left by an exception in call %d of %s, transform() of '
+                                          'forest %r on the same object returned %s; a fresh object returns %s'
+                                          % (cname, fname, k, kind, n2, got[:200], want[:200]))
+                            break
+
+
 def correspond(ctx):
     from lark.exceptions import LarkError
     from props.C05 import select_texts
+    reuse_stream(ctx)
     rng = ctx.rng
     tcases, tmeta = [], []
     vcases, vmeta = [], []
     gcases, gmeta = [], []
     scases, smeta = [], []
+    fcases, fmeta = [], []
     # ---- (a) acyclic: forest = derivations, TreeForestTransformer, is_ambiguous -------------------
     n_gram = ctx.scale(45, 250) * (3 if ctx.widen else 1)
     for gi in range(n_gram):
@@ -446,7 +631,7 @@ def correspond(ctx):
                 if rng.random() < 0.15:
                     walk_cases(ctx, ob['root'], ob['p'], w, vcases, vmeta, False, nd > 1, rng)
                 if rng.random() < 0.3:
-                    graph_case(ctx, ob['root'], ob['p'], w, gcases, gmeta, False, scases, smeta)
+                    graph_case(ctx, ob['root'], ob['p'], w, gcases, gmeta, False, scases, smeta, fcases, fmeta)
     import time; ctx.note('t_acyclic=%.1f' % (time.time()-ctx.t0))
     # ---- (c) dynamic lexers with %ignore terminals overlapping the grammar's terminals ----------------
     for w in EXOTIC:
@@ -517,7 +702,7 @@ def correspond(ctx):
             ncyc += 1
             ctx.count('cyclic', key=(g, text, lexer), nontrivial=True, lexer=lexer, nodes=min(len(nodes) // 20 * 20, 200))
             walk_cases(ctx, root, p, w, vcases, vmeta, True, True, rng if ncyc > 20 else None)
-            graph_case(ctx, root, p, w, gcases, gmeta, True, scases, smeta)
+            graph_case(ctx, root, p, w, gcases, gmeta, True, scases, smeta, fcases, fmeta)
             # the front ends themselves must return on cyclic forests
             for amb in ('resolve', 'explicit'):
                 if getattr(ctx, 'n_timeouts', 0) >= 3:
@@ -591,6 +776,20 @@ def correspond(ctx):
                 '2': 'children order is not a rearrangement of the packed children'}.get(str(code).split('%')[0], str(code))
         ctx.violation('correspondence:graph-resolve ' + what, dict(gmeta[i], no_longer_checks='graph resolve: ' + what),
                       False, 'model Forest/GraphResolve.v and lark disagree on %s' % what)
+    if not ctx.widen:
+        fcases, fmeta = subset(fcases, fmeta, ctx.scale(40, 1500))
+    bad, errs = ctx.coq_bad_indices('c20f', IMPORTS_T, 'gtft_ok', fcases, chunk=20)
+    for e in errs:
+        ctx.violation('correspondence:coq-evaluation', {'no_longer_checks': 'c20 graph-tft cases', 'detail': e}, False, e)
+    for i in bad[:6]:
+        code, _ = ctx.coq_eval('c20f_diag_%d' % i, IMPORTS_T, 'gtft_diag %s' % fcases[i])
+        c = str(code).split('%')[0]
+        what = {'2': 'children order is not a rearrangement of the packed children', '3': 'value returned by transform()',
+                '4': 'walk result vs the plain function gta', '5': 'model out of fuel'}.get(
+                    c, 'callback #%s of the walk (visit_*_in return / transform_* data and result / on_cycle path)'
+                    % (int(c) - 100) if c.isdigit() and int(c) >= 100 else c)
+        ctx.violation('correspondence:graph-tft ' + what, dict(fmeta[i], no_longer_checks='ForestToParseTree walk on the graph: ' + what),
+                      False, 'model Forest/GraphTft.v and lark disagree on %s' % what)
     bad, errs = ctx.coq_bad_indices('c20v', IMPORTS, 'visit_ok_raw', vcases, chunk=64)
     for e in errs:
         ctx.violation('correspondence:coq-evaluation', {'no_longer_checks': 'c20 walk cases', 'detail': e}, False, e)
@@ -620,6 +819,9 @@ def replay(ctx, case):
 
         def count(self, *a, **k):
             pass
+    if w.get('reuse'):
+        aborted, res = reuse_history(w['visitor'], w['forest'], w['kind'], w['k'])
+        return any(got != want for _, got, want in res)
     if 'hand' in w:
         for name, root in handbuilt_forests():
             if name == w['hand']:
